@@ -27,6 +27,7 @@ type QFact struct {
 	vars   []*Term // bvar terms
 	body   *Term   // mentions vars
 	origin string
+	global bool // exempt from block-reachability pruning
 }
 
 type Obl struct {
@@ -69,6 +70,8 @@ type fnExec struct {
 	strIDs   map[string]int
 	wfSeen     map[int]bool
 	modelNames map[string]string // defined name -> readable term, for model output
+	caseSub    map[*Term]*Term // case split in force while building a query
+	caseAssert *Term
 	instLevel  int // 0: no instances of quantified hypotheses, 1: goal terms only, 2: full
 	blkMarks   []blkMark
 	reach      map[*ssa.BasicBlock]map[*ssa.BasicBlock]bool
@@ -760,6 +763,14 @@ func (x *fnExec) instr(fr *frame, st *State, instr ssa.Instruction) {
 		x.mapUpdate(fr, st, t)
 	case *ssa.Range:
 		fr.env[t] = x.val(fr, t.X) // iterator = the collection
+		if mt, isMap := t.X.Type().Underlying().(*types.Map); isMap {
+			if ks, sok := mapKeySort(mt); sok {
+				// ghost: the set of keys already produced by this iteration starts empty
+				key := "X:visited:" + typeName(mt)
+				a := x.mapArr(st, key, ks, SBool)
+				st.setArr(key, Store(a, x.val(fr, t.X).T, ConstArr(Arr(ks, SBool), False)))
+			}
+		}
 	case *ssa.Next:
 		x.rangeNext(fr, st, t)
 	case *ssa.RunDefers:
@@ -1418,6 +1429,40 @@ func (x *fnExec) mapUpdate(fr *frame, st *State, t *ssa.MapUpdate) {
 	x.mapSet(st, mt, m, keyTerm(x.val(fr, t.Key)), x.val(fr, t.Value))
 }
 
+// loopKeepsMap reports whether the loop around a map iteration step can add no entry to maps of that type.
+func (x *fnExec) loopKeepsMap(fr *frame, nx *ssa.Next, mt *types.Map) bool {
+	var li *loopInfo
+	for _, l := range fr.loops {
+		if l.body[nx.Block()] && (li == nil || len(l.body) < len(li.body)) {
+			li = l
+		}
+	}
+	if li == nil {
+		return false
+	}
+	pre := mapPrefix(mt)
+	for b := range li.body {
+		for _, in := range b.Instrs {
+			switch t := in.(type) {
+			case *ssa.MapUpdate:
+				if mapPrefix(t.Map.Type().Underlying().(*types.Map)) == pre {
+					return false
+				}
+			case ssa.CallInstruction:
+				if _, isGo := in.(*ssa.Go); isGo {
+					continue
+				}
+				ce := &effectSet{keys: map[string]bool{}}
+				x.callEffects(t, ce)
+				if ce.top || ce.keys[pre] {
+					return false
+				}
+			}
+		}
+	}
+	return true
+}
+
 func (x *fnExec) rangeNext(fr *frame, st *State, t *ssa.Next) {
 	rng := t.Iter.(*ssa.Range)
 	ok := Fresh("next_ok", SBool)
@@ -1431,6 +1476,22 @@ func (x *fnExec) rangeNext(fr *frame, st *State, t *ssa.Next) {
 			if k != nil {
 				val, dom := x.mapGet(st, mt, m, k)
 				x.assume(st, Implies(ok, dom))
+				// ghost visited set: each key is produced once; when the iteration ends every key of a map that
+				// received no new entries during the loop has been produced
+				ks, _ := mapKeySort(mt)
+				vkey := "X:visited:" + typeName(mt)
+				va := x.mapArr(st, vkey, ks, SBool)
+				row := Select(va, m)
+				x.assume(st, Implies(ok, Not(Select(row, k))))
+				if x.loopKeepsMap(fr, t, mt) {
+					kk := BVar("vk", ks)
+					_, domK := x.mapGet(st, mt, m, kk)
+					x.qfacts = append(x.qfacts, &QFact{seq: x.next(), pc: And(st.pc, Not(ok)), vars: []*Term{kk},
+						body: Implies(domK, Select(row, kk)), origin: "range/complete"})
+				} else {
+					x.note("map modified while ranging over it in %s: no completeness fact for the iteration", funcKey(fr.fn))
+				}
+				st.setArr(vkey, Store(va, m, Ite(ok, Store(row, k, True), row)))
 				if _, isInv := tup.At(2).Type().(*types.Basic); !(isInv && tup.At(2).Type().(*types.Basic).Kind() == types.Invalid) {
 					vv = val
 				}
